@@ -25,7 +25,7 @@ ASSUMPTIONS = ["NaN and 0 are the same 'missing' value (every cryoCAT constructo
                "get_motl_subset although documented as array-like: noted as an observation outside the statement, not judged)",
                "order of the result is judged only where the statement fixes it (subset, removal, renumbering, merge_and_renumber)"]
 
-CLASSES = ["mixed", "dup_ids", "with_empty", "merge_heavy", "subset_heavy", "renumber_heavy", "intersect_heavy", "tiny"]
+CLASSES = ["mixed", "dup_ids", "with_empty", "merge_heavy", "subset_heavy", "renumber_heavy", "intersect_heavy", "tiny", "merge_many_tiny"]
 COLS = gens.COLS
 IX = {c: k for k, c in enumerate(COLS)}
 KEYS = ["tomo_id", "object_id", "class", "geom2", "geom5", "subtomo_id"]
@@ -154,6 +154,12 @@ def gen_list(rng, n, tag0, dup_ids, tomos):
         if rng.random() < 0.5:
             df["score"] = rng.integers(0, 8, n) * 0.125
             df["geom1"] = rng.integers(-6, 6, n) * 0.5 + 0.25
+    if n and (rng.random() < 0.35 or (dup_ids and rng.random() < 0.5)):
+        # decision values that differ by less than one float32 ulp (6e-8 relative), distinct in float64, in random row order:
+        # "the best-scoring row" must be decided on the values the list holds, not on a narrowed copy
+        for c in ("score", "geom1"):
+            c0 = float(rng.uniform(0.1, 1.0)) * float(rng.choice([1.0, 1.0, 100.0, -1.0]))
+            df[c] = c0 * (1.0 + rng.permutation(n) * float(rng.choice([1e-9, 3e-9, 1e-8])))
     for c in ("geom1", "shift_x", "phi"):
         if n and rng.random() < 0.4:
             df.loc[rng.random(n) < 0.2, c] = np.nan
@@ -167,22 +173,33 @@ OPS = ["split_renumber_split", "subset", "remove", "split", "intersection", "dro
 WEIGHT = {"mixed": None, "dup_ids": {"drop_duplicates": 4, "merge_and_drop_duplicates": 3, "intersection": 2},
           "with_empty": {"merge_and_renumber": 3, "merge_and_drop_duplicates": 2, "subset": 2}, "merge_heavy": {"merge_and_renumber": 5, "merge_and_drop_duplicates": 4},
           "subset_heavy": {"subset": 4, "remove": 4, "split": 3}, "renumber_heavy": {"renumber_particles": 3, "renumber_objects": 5},
-          "intersect_heavy": {"intersection": 6}, "tiny": None}
+          "intersect_heavy": {"intersection": 6}, "tiny": None, "merge_many_tiny": {"merge_and_renumber": 8, "merge_and_drop_duplicates": 3}}
 
 
 def gen(ctx, i, cls):
     rng = ctx.rng(i)
     big = ctx.tier == "thorough"
-    nl = int(rng.integers(2, 4))
+    nl = int(rng.integers(2, 4)) if cls != "merge_many_tiny" else int(rng.integers(3, 6))
     tomos = [float(t) for t in rng.choice(np.arange(1, 40), int(rng.integers(1, 5)), replace=False)]
     lists = []
     for k in range(nl):
         n = int(rng.integers(0, 201 if big else 60))
-        if cls == "tiny":
+        if cls in ("tiny", "merge_many_tiny"):
             n = int(rng.integers(0, 4))
         if cls == "with_empty" and k == 1:
             n = 0
         lists.append(gen_list(rng, n, 1000 * (k + 1), dup_ids=(cls == "dup_ids" or rng.random() < 0.3), tomos=tomos))
+    if cls == "merge_many_tiny":
+        # object numbers from short ranges that lie below, inside and above one another (21..23, 11..12, 22..24, ...)
+        for l in lists:
+            if len(l):
+                lo = int(rng.choice([1, 5, 11, 21, 22, 30]))
+                l["object_id"] = rng.integers(lo, lo + 3, len(l)).astype(float)
+    # a table index that is not 0..n-1 and not ascending (what subsets with reset_index=False, sort_values or concat leave behind)
+    for l in lists:
+        if len(l) and rng.random() < 0.35:
+            kind = int(rng.integers(0, 3))
+            l.index = rng.permutation(len(l)) if kind == 0 else (np.arange(len(l))[::-1] * 3 + 2 if kind == 1 else np.sort(rng.choice(np.arange(3 * len(l) + 4), len(l), replace=False))[::-1])
     nops = int(rng.integers(1, 11))
     w = np.ones(len(OPS))
     for name, f in (WEIGHT[cls] or {}).items():
@@ -371,7 +388,7 @@ def run_case(ctx, case):
                 return
             model[a] = got
         elif op in ("merge_and_renumber", "merge_and_drop_duplicates"):
-            k = int(rng.integers(1, min(4, len(real)) + 1))
+            k = int(rng.integers(1, min(4, len(real)) + 1)) if case["cls"] != "merge_many_tiny" else int(rng.integers(min(3, len(real)), min(6, len(real)) + 1))
             idx = [int(x) for x in rng.choice(len(real), k, replace=False)]
             ins = [real[j] for j in idx]
             mins = [model[j] for j in idx]
